@@ -95,17 +95,7 @@ def step (st : State) (w : List String) : State × String :=
         | none => (st, "bad-op")
     | _, _ => (st, "bad-op")
   | ["bl", kind, arg] =>
-    if kind == "dirload" then
-      -- readBlocklists over <dir> = main file (+ a staging file with this content)
-      let temps : Option (List (List Str)) :=
-        if arg == "_" then some [] else (hexStr arg).map (fun t => [splitNL t])
-      match temps with
-      | some temps =>
-        let mem' := dirLoadMem st.ps.mem st.ps.main temps
-        let ps := { st.ps with mem := mem', dirty := st.ps.dirty || decide (mem' ≠ st.ps.mem) }
-        ({ st with ps := ps }, s!"{memStr mem'} files=intact")
-      | none => (st, "bad-op")
-    else if kind == "viaapi" then ({ st with apiToken := arg != "-" }, "ok")
+    if kind == "viaapi" then ({ st with apiToken := arg != "-" }, "ok")
     else if kind == "apiempty" then
       let req : ApiReq := if arg == "setbatch" then .setBatch [] else .removeBatch []
       let ps := apiStep true st.ps req
@@ -140,6 +130,18 @@ def step (st : State) (w : List String) : State × String :=
           then run ps (persistSteps ps (ps.pending.length - 1) 0) else ps
         ({ st with ps := ps }, countStr op n)
       | none => (st, "bad-op")
+  | ["bl", "dirload", mainArg, arg] =>
+    -- readBlocklists over <dir> = main file (lines in this order) + a staging file with this content
+    let temps : Option (List (List Str)) :=
+      if arg == "_" then some [] else (hexStr arg).map (fun t => [splitNL t])
+    let main : Option (Option (List Str)) :=
+      if mainArg == "_" then some st.ps.main else (hexStr mainArg).map (fun t => some (splitNL t))
+    match temps, main with
+    | some temps, some main =>
+      let mem' := dirLoadMem st.ps.mem main temps
+      let ps := { st.ps with mem := mem', main := main, dirty := st.ps.dirty || decide (mem' ≠ st.ps.mem) }
+      ({ st with ps := ps }, s!"{memStr mem'} files=intact")
+    | _, _ => (st, "bad-op")
   | ["bl", "restart", mainArg, arg] =>
     -- probe: the process is killed now (stranding this staging file) and New runs over the directory
     let temps : Option (List (List Str)) :=
